@@ -20,7 +20,7 @@ MAXP = 65519
 def shadows():
     from harness import c12
     base = c12.shadows()
-    extra = loader.shadow((CX, "len", sym_len))
+    extra = loader.shadow((CX, "len", sym_len), (CX, "range", V.sym_range))
 
     class Both:
         def __enter__(s):
@@ -188,11 +188,13 @@ class Unkeyed(Job):
     functions = ["_dilation.connection.DilatedConnectionProtocol.connectionMade/dataReceived", "_Record.process_handshake",
                  "_Record.decrypt_message", "_Framer.add_and_parse"]
     must_reach = ("nt:accepted-all", "nt:dropped")
+    vary_len = True
 
     def __init__(self, role, samekey, cut):
         self.role, self.samekey, self.cut = role, samekey, cut
         self.name = "unkeyed_%s_%s_%s" % ("leader" if role is LEADER else "follower", "samekey" if samekey else "otherkey", cut)
-        self.bounds = dict(frames=3, frame_contents="every byte symbolic (may or may not equal the honest peer's bytes)",
+        self.bounds = dict(frames=3, frame_contents="every byte symbolic (may or may not equal the honest peer's bytes); the 2nd and 3rd frame have the honest "
+                           "length, length 0, 1 or one byte short (solver's choice)",
                            peer_key="same" if samekey else "different", chunking="whole" if cut is None else "cut fraction %s" % cut)
         if not samekey:
             self.must_reach = ("nt:dropped",)
@@ -258,13 +260,17 @@ class Unkeyed(Job):
             honest = [hs_frame, kcm_frame, ping_frame]
             xs = []
             for i, hf in enumerate(honest):
-                x = fresh_bytes("x%d" % i, len(hf) - 4)
+                # the LENGTH of the frames after the handshake is the adversary's choice too: the honest one, empty, one byte, one byte short
+                hl = len(hf) - 4
+                lens = [hl] if i == 0 or not self.vary_len else [hl, 0, 1, hl - 1]
+                n = lens[eng().choose(len(lens), "len%d" % i)] if len(lens) > 1 else hl
+                x = fresh_bytes("x%d" % i, n)
                 eng().inputs["x%d" % i] = x
                 xs.append(x)
             stream = SymBytes(list(prologue))
             for hf, x in zip(honest, xs):
-                stream = stream + hf[0:4] + x
-            same = [x == hf[4:] for hf, x in zip(honest, xs)]
+                stream = stream + ENC.to_be4(len(x)) + x
+            same = [(x == hf[4:]) if len(x) == len(hf) - 4 else SymBool(z3.BoolVal(False)) for hf, x in zip(honest, xs)]
             if self.cut is None:
                 chunks = [stream]
             else:
@@ -319,7 +325,7 @@ class Unkeyed(Job):
         xs = [inp["x%d" % i] for i in range(3)]
         stream = prologue
         for hf, x in zip(honest, xs):
-            stream += hf[0:4] + x
+            stream += ENC.to_be4(len(x)) + x
         same = [x == hf[4:] for hf, x in zip(honest, xs)]
         chunks = [stream] if self.cut is None else [stream[:int(len(stream) * self.cut)], stream[int(len(stream) * self.cut):]]
         for ch in chunks:
